@@ -128,3 +128,23 @@ pub fn serialize_cmap12(language: u32, cp_to_new_gid: &[(u32, u32)]) -> Result<V
     crate::cmap::verif::serialize_cmap12(language, &cmap_list(cp_to_new_gid))
         .map_err(|e| e.bits())
 }
+
+/// The plan fields read by the `name` and `OS/2` subsetters.
+#[derive(Clone, Debug, Default, PartialEq, Eq)]
+pub struct PlanMetaView {
+    /// ascending
+    pub name_ids: Vec<u16>,
+    /// ascending
+    pub name_languages: Vec<u16>,
+    pub os2_min_cmap_codepoint: u32,
+    pub os2_max_cmap_codepoint: u32,
+}
+
+pub fn plan_meta_view(plan: &Plan) -> PlanMetaView {
+    PlanMetaView {
+        name_ids: plan.name_ids.iter().map(|n| n.to_u16()).collect(),
+        name_languages: plan.name_languages.iter().collect(),
+        os2_min_cmap_codepoint: plan.os2_info.min_cmap_codepoint,
+        os2_max_cmap_codepoint: plan.os2_info.max_cmap_codepoint,
+    }
+}
